@@ -16,15 +16,12 @@ CONSTANTS
   Mtu = 1400
   Dts <- Dt1
   MaxFails = 0
-  D = 0
+  D = 1
   SlowFrom = "r3"
   SlowTo = "r2"
-SPECIFICATION Spec
+INIT Init
+NEXT Next
 VIEW viewE
-INVARIANT TypeOK
-INVARIANT MetricsBounded
-INVARIANT NeverTooGood
-INVARIANT NextHopIsNeighbour
-INVARIANT OwnRouteStays
-PROPERTY Convergence
+ACTION_CONSTRAINT SlowLink
+ACTION_CONSTRAINT ExportCountT
 CHECK_DEADLOCK FALSE
